@@ -23,7 +23,7 @@ package main
 //
 // Output lines: `ok`, `ca-ok`/`ca-err`, `na-ok`, and for a request
 //
-//	err <Code> | crash | ok san=<..> subj=<attrs> sig=<b> ca=<b> bc=<b> key=<b> ku=<n> eku=<..> xext=<..> life=<secs|clamp> le=<b> chain=<n> mid=<b> root=<b>
+//	err <Code> | crash | ok san=<..> crit=<SAN extension critical> subj=<attrs> sig=<b> ca=<b> bc=<b> key=<b> ku=<n> eku=<..> xext=<..> life=<secs|clamp> le=<b> chain=<n> mid=<b> root=<b>
 
 import (
 	"bytes"
@@ -101,7 +101,7 @@ type keyring struct {
 	keys map[string]crypto.Signer
 }
 
-var keyNames = []string{"rsa-a", "rsa-b", "ec256-a", "ec256-b", "ec384", "ed25519"}
+var keyNames = []string{"rsa-a", "rsa-b", "ec256-a", "ec256-b", "ec384", "ec521", "ed25519"}
 
 func newKeyring() *keyring {
 	k := &keyring{keys: map[string]crypto.Signer{}}
@@ -121,6 +121,8 @@ func newKeyring() *keyring {
 	k.keys["ec256-b"], err = ecdsa.GenerateKey(elliptic.P256(), rand.Reader)
 	must(err)
 	k.keys["ec384"], err = ecdsa.GenerateKey(elliptic.P384(), rand.Reader)
+	must(err)
+	k.keys["ec521"], err = ecdsa.GenerateKey(elliptic.P521(), rand.Reader)
 	must(err)
 	_, ed, err := ed25519.GenerateKey(rand.Reader)
 	must(err)
@@ -831,6 +833,7 @@ type rawTBS struct {
 type leafView struct {
 	sans      []string // in certificate order: U:<uri> D:<dns> I:<hex bytes> O<tag>:<hex>
 	sanCount  int      // number of SAN extensions
+	sanCritical bool
 	cn        string
 	subject   []string // every attribute of the raw subject, in order: <oid>=<value>
 	parsed    *x509.Certificate
@@ -874,6 +877,7 @@ func parseLeaf(pemText string) (*leafView, error) {
 		switch {
 		case e.Id.Equal(oidSAN):
 			v.sanCount++
+			v.sanCritical = e.Critical
 			var seq asn1.RawValue
 			if _, err := asn1.Unmarshal(e.Value, &seq); err != nil {
 				return nil, err
@@ -974,6 +978,7 @@ func codeName(err error) string {
 
 // outcome of one request on the real code, before formatting.
 type issueResult struct {
+	rejected bool // TLS handshake refused: the request never reached CreateCertificate
 	crash  bool
 	code   string // "" when OK
 	resp   *pb.IstioCertificateResponse
@@ -1030,6 +1035,9 @@ func (s *issueSUT) runA(a reqaSpec) (issueResult, *prepared, error) {
 	p, err := s.authn.prepare(a.spec)
 	if err != nil {
 		return issueResult{}, nil, err
+	}
+	if p.rejected {
+		return issueResult{rejected: true}, p, nil
 	}
 	delete(p.md, "clusterid")
 	if a.req.cluster != "-" {
@@ -1098,6 +1106,8 @@ func (s *issueSUT) chainHeadNotAfter() (time.Time, bool) {
 
 func (s *issueSUT) format(res issueResult) string {
 	switch {
+	case res.rejected:
+		return "reject"
 	case res.crash:
 		return "crash"
 	case res.code != "":
@@ -1113,7 +1123,7 @@ func (s *issueSUT) format(res issueResult) string {
 		// default TTL capped by minTTL to the remaining life of the first chain certificate: the
 		// certificate ends where that one ends, plus the seconds elapsed since the CA was built
 		if head, ok := s.chainHeadNotAfter(); ok {
-			if d := l.notAfter.Sub(head); d >= 0 && d <= time.Minute {
+			if d := l.notAfter.Sub(head); d >= 0 && d <= 10*time.Second {
 				life = "chaincap"
 			}
 		}
@@ -1136,8 +1146,8 @@ func (s *issueSUT) format(res issueResult) string {
 		sans = fmt.Sprintf("%dext:%s", l.sanCount, sans)
 	}
 	le := signer != nil && !l.notAfter.After(signer.NotAfter)
-	return fmt.Sprintf("ok san=%s subj=%s sig=%s ca=%s bc=%s key=%s ku=%d eku=%s xext=%s life=%s le=%s chain=%d mid=%s root=%s",
-		sans, wire.EncList(l.subject), wire.B(s.signedBySigner(l)), wire.B(l.isCA), wire.B(l.bcPresent), wire.B(res.spki != nil && bytes.Equal(l.spki, res.spki)),
+	return fmt.Sprintf("ok san=%s crit=%s subj=%s sig=%s ca=%s bc=%s key=%s ku=%d eku=%s xext=%s life=%s le=%s chain=%d mid=%s root=%s",
+		sans, wire.B(l.sanCritical), wire.EncList(l.subject), wire.B(s.signedBySigner(l)), wire.B(l.isCA), wire.B(l.bcPresent), wire.B(res.spki != nil && bytes.Equal(l.spki, res.spki)),
 		l.keyUsage, wire.EncList(l.eku), wire.EncList(l.xext), life, wire.B(le), len(got), wire.B(mid), wire.B(root))
 }
 
